@@ -313,6 +313,11 @@ def main(argv=None):
             if broken:
                 extra = ["--search"]  # deeper failing-input search
             res = run_harness(prop_id, args.tier, args.seed, extra)
+            if not extra and res.get("disagreements") and not res.get("property_failures"):
+                # the correspondence no longer holds and the ordinary pass exhibited no failing input: deeper search
+                res2 = run_harness(prop_id, args.tier, args.seed, ["--search"])
+                res["property_failures"] = res2.get("property_failures", [])
+                res["search_note"] = res2.get("search_note", res.get("search_note", ""))
     except ToolFailure as e:
         print(f"TOOL-FAILURE property={prop_id}: {e}", file=sys.stderr)
         return 2
